@@ -250,19 +250,19 @@ pub fn apply(r: &mut RLN, op: &Value) -> color_eyre::Result<()> {
     let fr = |v: &Value| Fr::from(v.as_u64().unwrap());
     let frs = |v: &Value| v.as_array().unwrap().iter().map(|x| Fr::from(x.as_u64().unwrap())).collect::<Vec<_>>();
     match op["c"].as_str().unwrap() {
-        "set" => r.set_leaf(op["i"].as_u64().unwrap() as usize, Cursor::new(enc_fr(&fr(&op["v"])))),
+        "set" => r.set_leaf(op["i"].as_u64().unwrap() as usize, crate::proto_exec::rd(enc_fr(&fr(&op["v"])))),
         "delete" => r.delete_leaf(op["i"].as_u64().unwrap() as usize),
-        "append" => r.set_next_leaf(Cursor::new(enc_fr(&fr(&op["v"])))),
-        "range" => r.set_leaves_from(op["s"].as_u64().unwrap() as usize, Cursor::new(enc_vec_fr(&frs(&op["vs"])))),
+        "append" => r.set_next_leaf(crate::proto_exec::rd(enc_fr(&fr(&op["v"])))),
+        "range" => r.set_leaves_from(op["s"].as_u64().unwrap() as usize, crate::proto_exec::rd(enc_vec_fr(&frs(&op["vs"])))),
         "override" => {
             let rem: Vec<u8> = op["rem"].as_array().unwrap().iter().map(|x| x.as_u64().unwrap() as u8).collect();
             r.atomic_operation(
                 op["s"].as_u64().unwrap() as usize,
-                Cursor::new(enc_vec_fr(&frs(&op["vs"]))),
-                Cursor::new(enc_vec_u8(&rem)),
+                crate::proto_exec::rd(enc_vec_fr(&frs(&op["vs"]))),
+                crate::proto_exec::rd(enc_vec_u8(&rem)),
             )
         }
-        "init" => r.init_tree_with_leaves(Cursor::new(enc_vec_fr(&frs(&op["vs"])))),
+        "init" => r.init_tree_with_leaves(crate::proto_exec::rd(enc_vec_fr(&frs(&op["vs"])))),
         "set_meta" => r.set_metadata(&bytes_of(&op["m"])),
         "flush" => r.flush(),
         c => panic!("unknown scenario op {c}"),
